@@ -17,6 +17,10 @@ SEEDS = {
     "C19-loaded-object-not-marked-fitted": ("C19", "load_discretizer", "fit, to_json, load_carver/load_discretizer, then a second (malformed or plain) fit of the reloaded object", "C19 quick, oracle fitted_object_unchanged on malformed calls issued after a restart operation", "caught"),
     "C19-multiclass-target-stringified-before-nan-check": ("C19", "MulticlassCarver._prepare_data", "MulticlassCarver only, a missing value anywhere in y", "C19 quick, oracle must_raise_assertion (fault T1, class MulticlassCarver)", "caught"),
     "C07-shallow-copy-shares-nan-cells": ("C07", "BaseDiscretizer._check_data (X.copy(deep=False)) + in-place write in transform_quantitative_feature", "copy=True, n_jobs<=1, NaN in a quantitative feature whose missing values were merged into a quantile group", "C07 quick, oracle input_not_modified", "caught"),
+    "C04-searchsorted-instead-of-first-match": ("C04", "transform_quantitative_feature (numpy.select first match replaced by searchsorted)", "quantitative leaders listed out of order: a hand-built BaseDiscretizer with unsorted bounds (or its JSON reload), or a non-adjacent downward merge through update_discretizer", "C04 quick, oracle transform_equals_model", "MISSED by the first version (every simulated object came from a fit, whose bounds are sorted); hand-built BaseDiscretizer objects (the path load_discretizer takes, bounds possibly out of order) were added as an 11th system under simulation and the change is caught"),
+    "C04-global-dropna-instead-of-per-feature": ("C04", "BaseDiscretizer.transform (reinstating NaN)", "object with dropna=False, then update_discretizer(feature, 'group', nan, kept) which sets the per-feature flag, then transform (also after reload)", "C04 quick, oracle closed_label_set / transform_equals_model after an edit", "caught"),
+    "C05-default-replaced-features-skip-nan-check": ("C05", "BaseDiscretizer._check_new_values", "a qualitative feature with a default group and no missing value at fit, and ONE frame holding both a never-seen category and a missing value in that column", "C05 quick, oracle must_reject", "caught"),
+    "C05-sorted-unexpected-values-typeerror": ("C05", "BaseDiscretizer._check_new_values (assertion message)", "feature without default group receiving two unexpected values of different types (an unseen numeric code and a missing value)", "C05 quick, oracle no_other_exception", "caught"),
     "C07-nan-rows-by-label-used-as-positions": ("C07", "transform_quantitative_feature", "NaN in a quantitative feature at transform time and an index that is not 0..n-1 in order (subset, permutation, relabelled or string index)", "C07 quick, oracles row_wise_purity / transform_raised", "caught"),
 }
 
